@@ -5,6 +5,7 @@ use super::super::{
     meta_subscriber::MetaSubscriber,
     meta_topic::MetaTopic,
 };
+#[cfg(not(feature = "verif"))]
 use std::{
     fs::{OpenOptions, File},
     sync::{
@@ -17,6 +18,10 @@ use std::{
     fmt::Debug,
     num::NonZeroU32,
 };
+#[cfg(feature = "verif")]
+use std::{fs::{OpenOptions, File}, sync::{Arc, atomic::Ordering::Relaxed}, fmt::Debug, num::NonZeroU32};
+#[cfg(feature = "verif")]
+use crate::verif::AtomicUsize;
 use memmap::{
     MmapOptions,
     MmapMut,
@@ -178,6 +183,8 @@ impl<'a, SlotType: 'a + Debug> MetaPublisher<'a, SlotType> for MMapMeta<'a, Slot
         let mutable_self = unsafe { &mut *(*(self as *const Self as *const std::cell::UnsafeCell<Self>)).get() };
         let tail = self.mmap_contents.publisher_tail.fetch_add(1, Relaxed);
         let slot = unsafe { mutable_self.buffer.get_unchecked_mut(tail) };
+        #[cfg(feature = "verif")]
+        crate::verif::yield_point("slot_write", slot as *const SlotType as usize);
         setter(slot);
         while self.mmap_contents.consumer_tail.compare_exchange_weak(tail, tail+1, Relaxed, Relaxed).is_err() {
             std::hint::spin_loop();
@@ -278,6 +285,8 @@ impl<'a, SlotType: 'a + Debug> MetaSubscriber<'a, SlotType> for MMapMetaDynamicS
             return None;
         }
         let slot_ref = unsafe { mutable_self.buffer.get_unchecked(head) };
+        #[cfg(feature = "verif")]
+        crate::verif::yield_point("slot_read", slot_ref as *const SlotType as usize);
         report_len_after_dequeueing_fn((tail - head) as i32);
         Some(getter_fn(slot_ref))
     }
@@ -335,6 +344,8 @@ impl<'a, SlotType: 'a + Debug> MetaSubscriber<'a, SlotType> for MMapMetaFixedSub
             return None;
         }
         let slot_ref = unsafe { mutable_self.buffer.get_unchecked(head) };
+        #[cfg(feature = "verif")]
+        crate::verif::yield_point("slot_read", slot_ref as *const SlotType as usize);
         report_len_after_dequeueing_fn((self.fixed_tail - head) as i32);
         Some(getter_fn(slot_ref))
     }
@@ -363,6 +374,25 @@ impl<'a, SlotType: 'a + Debug> MetaSubscriber<'a, SlotType> for MMapMetaFixedSub
 
 
 /// Unit tests the [mmap_meta](self) module
+/// verification hooks: lets the external harness name the shared cells
+#[cfg(feature = "verif")]
+impl<'a, SlotType: 'a + Debug> MMapMeta<'a, SlotType> {
+    /// addresses of (publisher_tail, consumer_tail, buffer[0]) and the size of a slot
+    pub fn verif_addrs(&self) -> ([usize; 3], usize) {
+        ([&self.mmap_contents.publisher_tail as *const AtomicUsize as usize, &self.mmap_contents.consumer_tail as *const AtomicUsize as usize,
+          self.buffer.as_ptr() as usize], std::mem::size_of::<SlotType>())
+    }
+    pub fn verif_counters(&self) -> [usize; 2] { [self.mmap_contents.publisher_tail.raw(), self.mmap_contents.consumer_tail.raw()] }
+}
+#[cfg(feature = "verif")]
+impl<'a, SlotType: 'a> MMapMetaDynamicSubscriber<'a, SlotType> {
+    pub fn verif_head_addr(&self) -> usize { &self.head as *const AtomicUsize as usize }
+}
+#[cfg(feature = "verif")]
+impl<'a, SlotType: 'a> MMapMetaFixedSubscriber<'a, SlotType> {
+    pub fn verif_head_addr(&self) -> usize { &self.head as *const AtomicUsize as usize }
+}
+
 #[cfg(any(test,doc))]
 mod tests {
     use super::*;
